@@ -253,6 +253,38 @@ theorem moving_window_rejects (f : MovFn) (w : Int) (hw : 0 ≤ w) (s : Series) 
   simp only [Option.getD_some]
   rw [if_pos (by omega)]; rfl
 
+/-- **replace_where**: inside the span every cell `x` becomes `new` when `test x` holds (NaN-testing tests fill in-span
+holes) and stays `x` otherwise; outside the span nothing appears; the result is trimmed -/
+theorem replace_where_pointwise (tf : TestFn) (new : Cell) (s : Series) (hI : Inv s) (t : Int) (v : Nat) :
+    (InSpan s t → v < s.nv → (s.replaceWhere tf new).abs t v = if tf.eval (s.abs t v) then new else s.abs t v) ∧
+    (¬ InSpan s t → (s.replaceWhere tf new).abs t v = none) ∧ Trimmed (s.replaceWhere tf new) :=
+  abs_replaceWhere tf new s hI t v
+
+/- fill_missing, full statement (NOT proved at the level of `abs`):
+     theorem fill_missing_rule (s r) (Inv s) (s.fillMissingP m (own span) = .ok r) :
+       ∀ t v, InSpan s t → v < nv → r.abs t v = match s.abs t v with | some x => some x | none => <value of the closest
+         observed period after / before / nearest (ties: before) / linear in the position between both / the constant>
+   Proved below, for every column (= one variant read over the requested span, in the order of the dates): observed cells
+   are never touched, a missing cell receives exactly `fillAt`, and `fillAt` reads the closest observed index at or after
+   (`next`) / at or before (`previous`) the cell with only missing cells in between; `nearest` and `linear` are defined from
+   these two indices. Missing: composing this with the read (`read_is_abs`) and the write-back of the filled columns
+   (`write_refines_map` + `writeAll_span`) through the period wrappers; the result is well-formed by `step_inv`. The
+   differential run and the dict oracle (which states the rule on periods) cover the composition. -/
+theorem fill_missing_partial (m : FillMethod) (col : List Cell) :
+    (fillColumn m col).length = col.length ∧
+    (∀ i x, colAt col i = some x → colAt (fillColumn m col) i = some x) ∧
+    (∀ i, i < col.length → colAt col i = none → colAt (fillColumn m col) i = fillAt m col i) ∧
+    (∀ i j, nextObs col i = some j →
+      j < col.length ∧ i ≤ j ∧ colAt col j ≠ none ∧ ∀ j', i ≤ j' → j' < j → colAt col j' = none) ∧
+    (∀ i j, prevObs col i = some j →
+      j < col.length ∧ j ≤ i ∧ colAt col j ≠ none ∧ ∀ j', j < j' → j' ≤ i → j' < col.length → colAt col j' = none) :=
+  ⟨fillColumn_length m col, fillColumn_obs m col, fillColumn_missing m col, nextObs_spec col, prevObs_spec col⟩
+
+/-- `nearest` with a tie goes back, `previous` extends flat to the right, `next` leaves the tail missing -/
+example : fillColumn .nearest [some 1, none, none, none, some 5, none] = [some 1, some 1, some 1, some 5, some 5, some 5] ∧
+    fillColumn .previous [none, some 2, none, none] = [none, some 2, some 2, some 2] ∧
+    fillColumn .next [none, some 2, none, none] = [some 2, some 2, none, none] := by decide
+
 /-! ## 6. Every operation keeps the invariant; arbitrary op sequences -/
 
 theorem pool_get_inv (p : Pool) (i : Nat) (s : Series) (hp : ∀ x ∈ p, Inv x) (h : p.get i = .ok s) : Inv s := by
